@@ -279,10 +279,16 @@ def execute(trace, ctx):
             return Graph(store, view_name)
         return top
 
+    path_objects = {}
+
     def path_of(op):
-        p, q = URIRef(P), URIRef(Q)
+        # one path object per kind for the whole run: evaluating it (forwards, backwards, with both ends open) must leave it as it was
         w = op.get("path")
-        return {"+": MulPath(p, "+"), "*": MulPath(p, "*"), "?": MulPath(p, "?"), "inv": InvPath(p), "alt": AlternativePath(p, q), "seq": SequencePath(p, q), "neg": NegatedPath(p)}[w]
+        if w not in path_objects:
+            p, q = URIRef(P), URIRef(Q)
+            path_objects[w] = {"+": MulPath(p, "+"), "*": MulPath(p, "*"), "?": MulPath(p, "?"), "inv": InvPath(p), "alt": AlternativePath(p, q), "seq": SequencePath(p, q), "neg": NegatedPath(p)}[w]
+            ctx.probe("path-object-reused")
+        return path_objects[w]
 
     def norm_rows(res):
         if res.type == "ASK":
